@@ -33,6 +33,24 @@ CHECKS.update({
         ref="5/C08"),
 })
 
+CHECKS.update({
+    "C12": dict(
+        technique="TLA+ spec of subscriptions, listeners and event delivery (spec/ip/IpSubs.tla) model-checked by TLC (depth-bounded exhaustive + simulation); recorded histories of the real IpPairing validated against IpSubs_Trace with the invariants evaluated in every state",
+        text="TLC checks ResubscribedAfterReconnect, ToldUp, ExactlyOnce, NeverTwice, InOrder, ListenersDoNotDrop over subscribe/unsubscribe operations cut at any point by a disconnection, reconnects, listener add/remove, raising and self-removing listeners, events and ignored bodies. Seeded random histories drive the real IpPairing over the simulated accessory (registrations recorded per session, events in bursts / split across reads / empty / non-JSON); every recorded trace must be a behaviour of the spec and keep the invariants.",
+        note="Trusted: TLC, harness/vloop.py, harness/simnet.py, harness/refacc. Events still unread when the connection is lost are not claimed.",
+        ref="5/C12"),
+    "C07": dict(
+        technique="TLC model checking of a byte-class state machine of the HTTP/EVENT parser's algorithm over all segmentations of small message sequences (spec/http/HttpParser.tla); exported streams replayed on the real feed loop under all <=2-cut sets and random multi-cuts; recorded runs validated by TLC (HttpParser_Trace)",
+        text="For every stream of <=3 messages from the shape universe and every way of cutting it into reads, the algorithm delivers exactly the messages whose last byte was fed, unaltered and in order, never early, with leftovers carried over (SegmentationInvariant, NeverEarly, NoLossNoDup, NoParserError, CleanAtEnd). The real data_received/parse agrees with this on every exported stream under all <=2-cut sets and under random multi-cuts on long random streams (validated by TLC against the spec's parser).",
+        note="Well-formed messages only (single length mechanism, lower-case 'chunked', no chunk extensions or trailers). Header names compared case-insensitively, values modulo surrounding whitespace; line content and body bytes are chosen by the concretiser.",
+        ref="5/C07"),
+    "C09": dict(
+        technique="TLC-checked specification of the canonical request form and of request()/send_bytes as a state machine over an enumerated request universe (spec/http/HttpRequestFormat.tla); every exported case issued through the real connection on insecure and secure simulated sessions; every observed request validated by TLC against a trace module",
+        text="Every request produced by HomeKitConnection.get/request/put/post/put_json/post_json and by the IpPairing API is byte-for-byte the spec's canonical string and is handed to the transport in exactly one write/writelines call, for IPv4, IPv6 and scoped IPv6 peers, bodies crossing the 1024-byte frame boundaries, ~1.6e3 nested JSON values plus random ones, and the characteristics/pairings/image calls (CanonicalForm, HeaderDiscipline, SingleCall, CompactNoWhitespace; FormatConforms/TransportConforms/CallConforms on traces).",
+        note="Peer name from SimNet's PeerSock; request bytes are those read by the reference accessory after its own decryption. An empty explicit body may appear with or without the two headers; key order and id order are free. Floats/escapes are taken verbatim from orjson.",
+        ref="5/C09"),
+})
+
 NOT_APPLICABLE = {
     "C02": "Byte-for-byte numeric equality of SRP-6a over a 3072-bit group with SHA-512: no state, schedule or history to model, TLC integers are 32-bit; a TLA+ transcription over a toy group would say nothing about the hard-coded constants. See DESIGN.md section 5/C02.",
 }
